@@ -250,7 +250,10 @@ func runC25(c *eng.Ctx) {
 					}
 					c.Ob("RETRY-reader", eng.FuncName(du)+" does-not-consume-byte-reader", ok, du.Pos(), "the uploader takes the bytes of a *util.BytesReader without reading it, so the retry in dataToChunk (which reuses one reader for all attempts) re-sends the same bytes")
 					// and the chain in between hands the same reader through
-					for _, hop := range []struct{ rel, fn, callee string; idx int }{
+					for _, hop := range []struct {
+						rel, fn, callee string
+						idx             int
+					}{
 						{"weed/server", "(*FilerServer).doUpload", "operation.Upload", 3},
 						{"weed/operation", "Upload", "operation.doUpload", 3},
 					} {
